@@ -47,9 +47,10 @@ HEADTAIL_WRITERS = {'graphite2::Segment::Segment', 'graphite2::Segment::appendSl
                     'graphite2::Segment::freeSlot', 'graphite2::Segment::justify', 'graphite2::Segment::reverseSlots'}
 
 
-def linksym_fn(run, rule, fn, this_kind, inst, rules=('R1', 'R2', 'R3', 'R4', 'R5', 'R6'), offstream_fresh=False, max_paths=None, cursor=()):
+def linksym_fn(run, rule, fn, this_kind, inst, rules=('R1', 'R2', 'R3', 'R4', 'R5', 'R6'), offstream_fresh=False, max_paths=None, cursor=(), max_visits=2):
     try:
         ls = LinkSym(fn, this_kind)
+        ls.max_visits = max_visits
         ls.cursor = tuple(cursor)
         paths = ls.run()
     except AnalysisBroken as e:
@@ -89,7 +90,7 @@ def linksym(run, vm):
     linksym_fn(run, 'LINKSYM', vm.handlers['insert'], None, 'INSERT', cursor=cur)
     linksym_fn(run, 'LINKSYM', vm.handlers['delete_'], None, 'DELETE', cursor=cur)
     linksym_fn(run, 'LINKSYM', vm.handlers['put_copy'], None, 'PUT_COPY', cursor=cur)
-    linksym_fn(run, 'LINKSYM', fx.one('graphite2::Segment::reverseSlots'), 'seg', 'reverseSlots')
+    linksym_fn(run, 'LINKSYM', fx.one('graphite2::Segment::reverseSlots'), 'seg', 'reverseSlots', rules=('R1', 'R2', 'R3', 'R4', 'R5', 'R6', 'R8', 'R9'), max_visits=6)
     # TEMP_COPY: the copy is off-stream (lives only in the slot map, marked copied); no stream slot may point to it
     tc = vm.handlers['temp_copy']
     ls = LinkSym(tc, None)
